@@ -5,6 +5,7 @@ import (
 	"errors"
 	"fmt"
 	"io"
+	"net/mail"
 	"os"
 
 	"github.com/inbucket/inbucket/v3/pkg/config"
@@ -158,6 +159,10 @@ func (h *Host) handleBeforeMailFromAccepted(session event.SMTPSession) *event.SM
 	}
 	defer h.pool.putState(ls)
 
+	// The handler works on its own copy of the addresses: whatever it changes before failing or
+	// declining to answer must not be seen by listeners consulted after it.
+	session = cloneSMTPSession(session)
+
 	logger.Debug().Msgf("Calling Lua function with %+v", session)
 	if err := ls.CallByParam(
 		lua.P{Fn: ib.Before.MailFromAccepted, NRet: 1, Protect: true},
@@ -179,12 +184,33 @@ func (h *Host) handleBeforeMailFromAccepted(session event.SMTPSession) *event.SM
 	return result
 }
 
+// cloneSMTPSession returns the session with deep copies of its addresses.
+func cloneSMTPSession(session event.SMTPSession) event.SMTPSession {
+	if session.From != nil {
+		from := *session.From
+		session.From = &from
+	}
+	to := make([]*mail.Address, len(session.To))
+	for i, a := range session.To {
+		if a != nil {
+			c := *a
+			to[i] = &c
+		}
+	}
+	session.To = to
+	return session
+}
+
 func (h *Host) handleBeforeRcptToAccepted(session event.SMTPSession) *event.SMTPResponse {
 	logger, ls, ib, ok := h.prepareInbucketFuncCall("before.rcpt_to_accepted")
 	if !ok {
 		return nil
 	}
 	defer h.pool.putState(ls)
+
+	// The handler works on its own copy of the addresses: whatever it changes before failing or
+	// declining to answer must not be seen by listeners consulted after it.
+	session = cloneSMTPSession(session)
 
 	logger.Debug().Msgf("Calling Lua function with %+v", session)
 	if err := ls.CallByParam(
